@@ -174,6 +174,16 @@ class C11(Prop):
             p = Q.gen_prog(rng, maxdepth=4, typed=rng.choice([0.5, 0.9, 1.0]))
             ret = dret if rng.random() < 0.8 else {n: rng.choice("lsio") for n in reg}
             out.append(("progs", {"k": "prog", "prog": p, "lays": self.lays(rng, ctx.pick(3, 5)), "ret": ret}))
+        # a program means the same whatever the process has parsed before: first a long run of rejected queries (errors deep
+        # inside nested values, literals nested far beyond the ordinary), then the program
+        rng = ctx.rng("c11after")
+        bad = ["RETURN = [[[[1, 2,]]]];", 'RETURN = {"a": {"b": [1,, 2]}};', "RETURN = nop([1, [2, (]]);", "RETURN = [[[[[[[[1 2]]]]]]]];",
+               'RETURN = concat([[["a]]], []);', "RETURN = [" * 3 + "]", "RETURN = " + "[" * 140 + "1 2" + "]" * 140 + ";",
+               "RETURN = " + "[" * 130 + "]" * 130 + ";", "x = [[[{]]];", "RETURN = nop(nop(nop(nop(,))));"]
+        for _ in range(ctx.pick(12, 150)):
+            p = Q.gen_prog(rng, maxdepth=3, typed=1.0)
+            prelude = [rng.choice(bad) for _ in range(rng.choice([40, 130, 260]))]
+            out.append(("after-errors", {"k": "prog", "prog": p, "lays": self.lays(rng, 3), "ret": dret, "prelude": prelude}))
         # bracketed first arguments followed by more arguments
         rng = ctx.rng("c11first")
         names = sorted(reg)
@@ -234,6 +244,8 @@ class C11(Prop):
         texts = self.texts(case)
         if case["k"] == "real":
             return {"texts": texts, "outs": [Q.run_text_real(t) for t in texts]}
+        for t in case.get("prelude") or []:
+            Q.run_text(t, case["ret"], kind_only=True)  # outcome irrelevant here (C17 judges it)
         return {
             "texts": texts,
             "outs": [Q.run_text(t, case["ret"]) for t in texts],
@@ -243,6 +255,11 @@ class C11(Prop):
     def same(self, case, impl_out, model_out):
         if case["k"] == "real":  # real builtin bodies: no model, the oracle evaluates directly
             return True
+        if "\\" in json.dumps(case["prog"]):
+            # a string value with a backslash is outside the grammar of the Lean renderer (WFProg: no backslash in values;
+            # the harness renders it with the other quote as delimiter): the texts are the harness's, everything computed
+            # from them is compared
+            return impl_out["outs"] == model_out["outs"] and impl_out["denote"] == model_out["denote"]
         return impl_out == model_out
 
     def model_lines(self, case):
